@@ -24,8 +24,10 @@ PHASE = ['']
 def hook(event, args):
     if not ARMED[0]:
         return
-    if event == 'compile' and len(args) > 1 and args[1] == '<unknown>':
-        return    # ast.parse(text) (filename '<unknown>', PyCF_ONLY_AST) raises this; nothing is executed.
+    if event == 'compile' and len(args) > 1 and args[1] == '<unknown>' and PHASE[0] in ('parse', 'engine'):
+        return    # ast.parse(text) (filename '<unknown>', PyCF_ONLY_AST) raises this while an expression TEXT is loaded
+        #           (rule files parse their dynamic {tags} when a rule first matches: phase 'engine'); nothing is executed.
+        #           While an already loaded expression is evaluated (phases 'eval', 'view') nothing may be handed to the compiler.
         #           eval()/exec()/compile() of a string use '<string>' or an explicit name and also raise 'exec'.
     if event == 'import':
         mod = args[0] if args else ''
@@ -45,7 +47,11 @@ def hook(event, args):
 LAZY_OK = ('difflib',)
 sys.addaudithook(hook)
 import warnings  # noqa: E402
-warnings.simplefilter('ignore')   # CPython's own SyntaxWarning lines on stderr are not expression I/O
+# CPython's own compiler warnings about the expression text (invalid escape sequence, "is" with a literal, ...) are
+# printed by the interpreter, not by tally: ignored. Every other warning is left at its default, so that a warning raised
+# from inside evaluation does what it does for a user: a line on stderr and a source-file read by linecache.
+warnings.filterwarnings('ignore', category=SyntaxWarning)
+warnings.filterwarnings('ignore', category=DeprecationWarning)
 
 from tally import expr_parser as EP  # noqa: E402
 from tally import merchant_engine as ME  # noqa: E402
@@ -84,13 +90,13 @@ def tree_kinds(node):
 
 def mk_txn():
     return {'description': 'STARBUCKS #123 SEATTLE WA', 'raw_description': 'STARBUCKS #123 SEATTLE WA', 'amount': -12.5,
-            'date': datetime.date(2025, 2, 28), 'field': {'memo': 'REF:42', 'code': 'ACH-7'}, 'source': 'Amex',
+            'date': datetime.date(2025, 2, 28), 'field': {'memo': 'REF:42', 'code': 'ACH-7', 'num': '42', 'hexy': '0x1F'}, 'source': 'Amex',
             'location': 'Seattle, WA'}
 
 
 def mk_ds():
-    return {'rows': [{'item': 'Book', 'amount': 12.5, 'date': datetime.date(2025, 2, 27)},
-                     {'item': 'Pen', 'amount': 3.0, 'date': datetime.date(2025, 3, 1)}]}
+    return {'rows': [{'item': 'Book', 'amount': 12.5, 'date': datetime.date(2025, 2, 27), 'qty': '3', 'sku': '7-ELEVEN 12'},
+                     {'item': 'Pen', 'amount': 3.0, 'date': datetime.date(2025, 3, 1), 'qty': '1_0', 'sku': '.5'}]}
 
 
 def run_one(text):
